@@ -493,6 +493,12 @@ func genHistory(c *core.Chooser, prop string, tid int, maxOps int) []hop {
 		case 7:
 			o.smpp = c.Bool()
 			o.text = genSMSText(c, famGSM7U, 20+c.Intn(300), nil2run)
+			if (len(ops)+tid)%5 == 0 {
+				// a long text (one to three kilobytes): sizes at which an implementation may switch strategy
+				for len(o.text) < 1100+(len(ops)*131+tid*17)%2000 {
+					o.text += o.text + "."
+				}
+			}
 			o.ref = byte(tid)    // unique per in-flight Build: keeps adopted workers distinguishable
 			o.coding = c.Intn(5) // 0 a fresh builder; 1, 2: the task's own builder value, used again and again; 3, 4: the logging paths
 		}
